@@ -162,6 +162,12 @@ def sources(pkg: Path = None):
     return out
 
 
+def custom_sources():
+    """hand-made universes kept in corpus/C12 (NOT shipped; never part of shipped_raw)"""
+    from harness.common import VERIF
+    return [("raw_deadlock", VERIF / "corpus" / "C12" / "deadlock_universe.yaml")]
+
+
 def translate():
     srcs = sources()
     body = [
@@ -183,4 +189,8 @@ def translate():
         body.append(f"Definition u_{ident[4:]} : universe := Eval vm_compute in universe_of {ident}.")
     body.append("Definition shipped_universes : list universe := "
                 + clist(["u_current"] + [f"u_{i[4:]}" for i, _ in srcs[1:]]) + ".")
+    for ident, path in custom_sources():
+        body.append(f"(* corpus/C12/{path.name}: hand-made, not shipped *)")
+        body.append(f"Definition {ident} : rawconf :=\n  {raw_to_coq(read_raw(path))}.\n")
+        body.append(f"Definition u_{ident[4:]} : universe := Eval vm_compute in universe_of {ident}.")
     return {"Gen/Universes.v": "\n".join(body) + "\n"}
